@@ -50,8 +50,11 @@ _BUILTIN = {}
 
 
 def builtin(name):
+    """The built-in tables as the model knows them: private copies taken once at start-up (setup()), before any
+    workload touches what the library hands out."""
     if name not in _BUILTIN:
-        _BUILTIN[name] = get_builtin_conversion_rules(name)
+        import types
+        _BUILTIN[name] = [types.SimpleNamespace(rule=dict(r.rule)) for r in get_builtin_conversion_rules(name)]
     return _BUILTIN[name]
 
 
@@ -80,10 +83,13 @@ def floors(tier):
             'partial_compared': 8000, 'module_level_compared': 2000, 'compositionality_checked': 3000,
             'fail_policy_raised': 300, 'histkeys:rule_kind_fired': 3, 'histkeys:scheme': 6, 'histkeys:policy': 6,
             'per_rule_protection_fired': 1000, 'multichar_consumption': 1000,
-            'partial_with_explicit_rules': 2000, 'partial_with_empty_rules': 500}
+            'partial_with_explicit_rules': 2000, 'partial_with_empty_rules': 500,
+            'returned_rule_lists_edited_by_caller': 20}
 
 
 def setup(rec):
+    builtin('defaults')
+    builtin('unicode-xml')
     pass
 
 
@@ -402,6 +408,24 @@ def shrink(v):
     return r.violations[0] if r.violations else v
 
 
+def hostile_caller(rng, rec):
+    """A caller that edits what the library hands out: the list returned by get_builtin_conversion_rules() gets an extra
+    rule in front, its rule object gets another protection, and a rule dict passed to an encoder is changed afterwards.
+    Encoders built later that name the built-in sets must not see any of it (the other model cases of this process
+    decide that: they run after this call, against the documented tables)."""
+    from pylatexenc.latexencode import get_builtin_conversion_rules, UnicodeToLatexConversionRule, RULE_DICT
+    name = rng.choice(['defaults', 'unicode-xml'])
+    lst = get_builtin_conversion_rules(name)
+    lst.insert(0, UnicodeToLatexConversionRule(RULE_DICT, {ord('a'): 'HOSTILE', 0xe9: 'HOSTILE'}))
+    lst.append(UnicodeToLatexConversionRule(RULE_DICT, {ord('z'): 'HOSTILE'}))
+    for r in lst:
+        try:
+            r.replacement_latex_protection = 'none'
+        except Exception:
+            pass
+    rec.monitor('returned_rule_lists_edited_by_caller')
+
+
 def run_shard(desc, rec):
     rng = rng_for(desc)
     alpha = alphabet()
@@ -409,6 +433,8 @@ def run_shard(desc, rec):
     if kind == 'model':
         for i in range(desc['configs']):
             cfg = gen_config(rng)
+            if i % 5 == 0:
+                hostile_caller(rng, rec)
             for j in range(desc['per']):
                 s = ''.join(rng.choice(TRIGGERS) if rng.random() < 0.3 else rng.choice(alpha)
                             for _ in range(rng.randint(0, 10)))
